@@ -154,8 +154,20 @@ def run(ctx):
     streams.attach_replays(ctx, viols, scns)
     ctx.violations += viols
     acc = drift.check(ctx, files)
+    # the framing decision itself: spec/ResFraming.tla (RES_BODY_DETERMINE transcribed), every point of the recorded lattice
+    ft, fd, fbad, _ = vlib.pattern_f(ctx, "san", "fn_resfr", [["all", i, 8] for i in range(8)], "ResFramingRows", "ResFramingRows.cfg", xmx="5g")
+    for v in fbad:
+        r = v.get("row") or {}
+        if isinstance(r, dict) and "status" in r:
+            v["what"] = "%s: %s %s te=%r cls=%r ct=%r -> state %s rc %s tc %s sp %s smug %s" % (v["clause"], r.get("m"), r.get("status"), [bytes(x) for x in r.get("te", [])], [bytes(x) for x in r.get("cls", [])],
+                                                                                              [bytes(x) for x in r.get("ct", [])], r.get("state"), r.get("rc"), r.get("tc"), r.get("sp"), r.get("smug"))
+            v["row"] = {k: r[k] for k in ("m", "status", "ver11", "te", "cls", "ct") if k in r}
+    ctx.violations += fbad
     vlib.finish(ctx, "model_checking", {
-        "model_acceptance": acc,
+        "model_acceptance": acc, "framing_decision_rows": ft,
+        "framing_decision_rule": "method {GET, HEAD} x status {100, 101, 150, 200, 204, 304, 404} x {HTTP/1.0, 1.1} x Transfer-Encoding {none, chunked, CHUNKED, 'gzip, chunked', xchunkedx, identity, chu NUL nked, chunke} x "
+                                 "Content-Length {none, 5, 0, abc, '7 ', -1, 12x, 00} x {once, twice, then 9} x Content-Type {none, text/html, Multipart/ByteRanges, 'TEXT/Plain ;q=1', a TAB b}: state after the head, return code, "
+                                 "transfer coding, progress, smuggling indicator, content length, media type = spec/ResFraming.tla",
         "states": mc.distinct, "transitions": mc.generated, "traces_validated_against_impl": execs,
         "evaluations": execs, "distinct_nontrivial": len({s.text().split("\n", 1)[1] for s in scns if s.nbytes() > 0}),
         "events_judged": events,
